@@ -159,6 +159,39 @@ Definition hier_ok_at (pre : string) (cases : list coord) (i : nat) : bool :=
 Definition hier_ok (pre : string) (cases : list coord) : bool :=
   forallb (hier_ok_at pre cases) (seq 0 (List.length cases)).
 
+(* ------------------------------------------------------------------ coordinates as '|'-separated segments *)
+
+(* what the reader has is the stored string; its path components are the segments between the bars *)
+Definition bar_free (s : list ascii) : bool := forallb (fun a => negb (Ascii.eqb a bar)) s.
+
+Fixpoint join (l : list (list ascii)) : list ascii :=
+  match l with
+  | [] => []
+  | [x] => x
+  | x :: r => x ++ bar :: join r
+  end.
+
+Fixpoint flatten (c : coord) : list (list ascii) :=
+  match c with [] => [] | (n, i) :: r => chars n :: show i :: flatten r end.
+
+Fixpoint seg_eqb (a b : list ascii) : bool :=
+  match a, b with
+  | [], [] => true
+  | x :: a', y :: b' => Ascii.eqb x y && seg_eqb a' b'
+  | _, _ => false
+  end.
+
+Fixpoint seg_prefix (xs ys : list (list ascii)) : bool :=
+  match xs, ys with
+  | [], _ => true
+  | x :: xs', y :: ys' => seg_eqb x y && seg_prefix xs' ys'
+  | _ :: _, [] => false
+  end.
+
+(* parse a rendered count back *)
+Definition digit_val (a : ascii) : nat := (nat_of_ascii a - 48)%nat.
+Definition parse (s : list ascii) : nat := fold_left (fun acc a => (10 * acc + digit_val a)%nat) s 0%nat.
+
 (* ------------------------------------------------------------------ evaluation for the harness *)
 
 Definition vstrs (l : list string) : val := VL (map VS l).
